@@ -152,6 +152,8 @@ def main(tier, seed):
         items.append(("neg/%d/%d" % (seed, i), gen.negcycle_program(random.Random("neg/%s/%s" % (seed, i)))))
     for i in range(n):
         items.append(("negrec/%d/%d" % (seed, i), gen.negcycle_under_recursion(random.Random("negrec/%s/%s" % (seed, i)))))
+        if i % 3 == 0:
+            items.append(("negnest/%d/%d" % (seed, i), gen.negcycle_nested_positive(random.Random("negnest/%s/%s" % (seed, i)))))
     counts = {"must-answer": 0, "must-reject": 0, "either": 0}
     for st in pmap(work, items, item_timeout=60 if tier == "quick" else 300):
         for k in counts:
